@@ -61,6 +61,11 @@ class EventError(StateMachineError):
         super().__init__(msg)
         self.event = evt
 
+    def __reduce__(self) -> Any:
+        # The constructor takes the event in addition to the message that ends up in ``args``: say how to rebuild the
+        # exception, otherwise it cannot be copied, pickled or loaded back from the saved state of an excepted process
+        return self.__class__, (self.event, *self.args)
+
 
 class TransitionFailed(Exception):  # noqa: N818
     """A state transition failed"""
